@@ -483,7 +483,7 @@ loop:
 								r.Outcome("baseline-no-rule-connected")
 							}
 						}
-						if len(o.Findings) == 0 && len(st.Rules) > 0 && st.ipBlocked(f.IP) && len(comp.Addrs) > 0 && outcome == fxFail && nsamples < 3 && idx%37 == 0 {
+						if len(o.Findings) == 0 && len(st.Rules) > 0 && st.ipBlocked(f.IP) && len(comp.Addrs) > 0 && outcome == fxFail && nsamples < 3 && shard == 0 && idx%37 == 0 {
 							nsamples++
 							r.Sample(map[string]any{"case": cs, "transport_dials": o.Dials, "error": o.Err, "verdict": "ok"})
 						}
